@@ -54,9 +54,9 @@ def snapshot(x, depth=0):
     # (contents AND the properties a caller relies on afterwards: dtypes, writability of arrays, column / index labels)
     if isinstance(x, pd.DataFrame):
         return ("df", [str(c) for c in x.columns], [str(i) for i in x.index], [str(t) for t in x.dtypes],
-                [[repr(v) for v in row] for row in x.itertuples(index=False)])
+                [[repr(v) for v in row] for row in x.itertuples(index=False)], repr(x.index.names), repr(x.columns.names))
     if isinstance(x, pd.Series):
-        return ("series", str(x.dtype), str(x.name), [str(i) for i in x.index], [repr(v) for v in x.tolist()])
+        return ("series", str(x.dtype), str(x.name), [str(i) for i in x.index], [repr(v) for v in x.tolist()], repr(x.index.names))
     if isinstance(x, np.ndarray):
         return ("nd", x.shape, str(x.dtype), bool(x.flags.writeable), [repr(v) for v in x.ravel().tolist()])
     if isinstance(x, dict):
@@ -184,6 +184,8 @@ def catalogue():
     add("distance.cdist", lambda: [seqs(), seqs2()], lambda a: distance.cdist(a[0], a[1]))
     add("distance.cdist-same-collection", lambda: [seqs()], lambda a: [distance.cdist(a[0], a[0]), distance.cdist(a[0], list(a[0]))])
     add("distance.downsample", lambda: [seqs()], lambda a: distance.downsample(a[0], 3), True)
+    add("distance.downsample-ndarray", lambda: [np.array(seqs())], lambda a: distance.downsample(a[0], 3), True)
+    add("distance.pcDelta-maxseqs-ndarray", lambda: [np.array(seqs())], lambda a: distance.pcDelta(a[0], maxseqs=4, normalize=False), True)
     add("distance.pcDelta", lambda: [seqs()], lambda a: distance.pcDelta(a[0]))
     add("distance.pcDelta-two", lambda: [seqs(), seqs2(), [0, 1, 2, 3]], lambda a: distance.pcDelta(a[0], a[1], bins=a[2], pseudocount=0.5))
     add("distance.pcDelta-table", lambda: [tab()], lambda a: distance.pcDelta(a[0], bins=np.arange(0, 9), normalize=False))
@@ -240,6 +242,10 @@ def catalogue():
     # key in the index, with and without suffixes (no copy is forced by set_index here: the tables handed over are the caller's own)
     add("io.multimerge-index-suffixes", lambda: [[pd.DataFrame({"x": [1, 2]}, index=["a", "b"]), pd.DataFrame({"x": [3, 4]}, index=["b", "c"])], ["l", "r"]],
         lambda a: io.multimerge(a[0], "index", suffixes=a[1]))
+    add("io.multimerge-index-names", lambda: [[pd.DataFrame({"a": [1.0, 2.0, 3.0]}, index=pd.RangeIndex(3, name="clonotype")),
+                                               pd.DataFrame({"b": [4.0, 5.0, 6.0]}, index=pd.RangeIndex(3)),
+                                               pd.DataFrame({"c": [7.0, 8.0, 9.0]}, index=pd.RangeIndex(3, name="other"))]],
+        lambda a: io.multimerge(a[0], "index"))
     add("io.multimerge-index", lambda: [[pd.DataFrame({"x": [1, 2]}, index=["a", "b"]), pd.DataFrame({"y": [3, 4]}, index=["b", "c"])]],
         lambda a: io.multimerge(a[0], "index", how="left"))
     add("io.multimerge-inner", lambda: [[pd.DataFrame({"k": ["a", "b"], "x": [1, 2]}), pd.DataFrame({"k": ["b", "c"], "y": [3, 4]})]],
